@@ -115,6 +115,25 @@ func propC02(run *Run, n int) {
 		dw := implDiff(ch.o, a.Wire(), b.Wire())
 		addC02Case(run, "diff:"+ch.label, dw, a.Wire(), b.Wire(), ch.o.Wire())
 	}
+	// long lines: a value whose JSON text makes a `-`, `+` or context line of about 4 KiB, just below / at /
+	// above 64 KiB (the default token limit of bufio.Scanner) and far beyond, followed by further hunks
+	for _, size := range []int{4090, 65531, 65532, 65536, 70000, 300000} {
+		long := VStr(strings.Repeat("x", size))
+		for k := 0; k < 3; k++ {
+			var a, b *Val
+			switch k {
+			case 0: // replaced value, then a second hunk
+				a, b = VObj("a", VStr("short"), "b", VNum(1)), VObj("a", long, "b", VNum(2))
+			case 1: // long context line in a list, then a second hunk
+				a, b = VObj("l", VArr(VNum(1), long, VNum(3)), "z", VNum(1)), VObj("l", VArr(VNum(1), long, VNum(4)), "z", VNum(2))
+			default: // long removed line inside an added/removed array value
+				a, b = VObj("a", VArr(long, VNum(1)), "b", VNum(1)), VObj("a", VNum(0), "b", VNum(2))
+			}
+			dw := implDiff(OptNone, a.Wire(), b.Wire())
+			run.Count("long-line")
+			addC02Case(run, fmt.Sprintf("diff:long-line-%d", size), dw, a.Wire(), b.Wire(), OptNone.Wire())
+		}
+	}
 	shapes := hunkShapes()
 	run.Count(fmt.Sprintf("hunk_shapes=%d", len(shapes)))
 	for _, h := range shapes {
